@@ -57,4 +57,7 @@ MUTANTS = [
     m("c10-twin-assoc", None, "        return self.eigvec @ (self.diag_eigval @ (self.eigvec.T @ other))", "        return (self.eigvec @ self.diag_eigval) @ (self.eigvec.T @ other)", twin=True),
     m("c10-twin-scalar-order", None, "        return ScaledIdentityMatrix(scalar * self._scalar, self.shape[0])", "        return ScaledIdentityMatrix(self._scalar * scalar, self.shape[0])", twin=True),
     m("c10-twin-sign-position", None, "        return self.sign * (self.factor @ (self.factor.T @ other))", "        return self.factor @ (self.sign * (self.factor.T @ other))", twin=True),
+    m("c10-product-array-missing-transpose", "R1", "        _array = rect_matrix @ (pos_def_matrix @ rect_matrix.T.array)", "        _array = rect_matrix @ (pos_def_matrix @ rect_matrix.array)"),
+    m("c10-product-array-inner-inverted", "R1", "        _array = rect_matrix @ (pos_def_matrix @ rect_matrix.T.array)", "        _array = rect_matrix @ (pos_def_matrix.inv @ rect_matrix.T.array)"),
+    m("c10-twin-product-array-regrouped", None, "        _array = rect_matrix @ (pos_def_matrix @ rect_matrix.T.array)", "        _array = (rect_matrix @ pos_def_matrix) @ rect_matrix.T.array", twin=True),
 ]
